@@ -82,7 +82,7 @@ pub fn run(args: &Args, rep: &mut Report) {
     let want = |id: &str| only.as_ref().map(|o| o == id).unwrap_or(true);
     mon::install();
     // ---- slice A: library round trips from the C01 space (incl. k = 32, fallback > 0) ----
-    let na = args.get_u64("na", if thorough { 800 } else { 48 });
+    let na = args.get_u64("na", if thorough { 500 } else { 48 });
     for i in 0..na {
         let id = format!("A{}", i);
         if !args.mine(i) || !want(&id) {
